@@ -34,6 +34,12 @@ template <class T>
 struct is_move_construct_nothrow : std::integral_constant<bool, amc::is_trivially_relocatable<T>::value ||
                                                                     std::is_nothrow_move_constructible<T>::value> {};
 
+/// Returns 'size + count' as an uintmax_t. With a size_type as wide as uintmax_t the plain sum could wrap around and escape
+/// the capacity checks: it saturates instead, to a value that the capacity checks always refuse.
+inline uintmax_t SumSizes(uintmax_t size, uintmax_t count) {
+  return count > std::numeric_limits<uintmax_t>::max() - size ? std::numeric_limits<uintmax_t>::max() : size + count;
+}
+
 /// Shift 'n' elements starting at 'first' one slot to the right
 /// Requirements: n != 0, with uninitialized memory starting at 'first + n'
 /// Warning: no destroy is called for elements which has been moved from.
@@ -1314,7 +1320,7 @@ class VectorImpl : public VectorDestr<T, Alloc, SizeType, WithInlineElements, Gr
     assert(position >= this->cbegin() && position <= cend());
     iterator pos;
     if (count > 0) {
-      const_pointer pV = std::addressof(this->adjustCapacity(static_cast<uintmax_t>(this->size()) + count, v, &position));
+      const_pointer pV = std::addressof(this->adjustCapacity(vec::SumSizes(this->size(), count), v, &position));
       pos = const_cast<iterator>(position);
       SizeType nElemsToShift = static_cast<SizeType>(this->size() - (pos - this->begin()));
       if (nElemsToShift == 0) {
@@ -1420,13 +1426,13 @@ class VectorImpl : public VectorDestr<T, Alloc, SizeType, WithInlineElements, Gr
   }
 
   void append(size_type count) {
-    this->adjustCapacity(static_cast<uintmax_t>(this->size()) + count);
+    this->adjustCapacity(vec::SumSizes(this->size(), count));
     amc::uninitialized_value_construct_n(end(), count);
     this->setSize(this->size() + count);
   }
 
   void append(size_type count, const_reference v) {
-    const_reference newV = this->adjustCapacity(static_cast<uintmax_t>(this->size()) + count, v);
+    const_reference newV = this->adjustCapacity(vec::SumSizes(this->size(), count), v);
     std::uninitialized_fill_n(end(), count, newV);
     this->setSize(this->size() + count);
   }
